@@ -156,6 +156,9 @@ class YAMLPath:
         removable_segment = YAMLPath._stringify_yamlpath_segments(
             popped_queue, self.separator)
         prefixed_segment = "{}{}".format(self.separator, removable_segment)
+        if self.separator is PathSeparators.FSLASH:
+            # The stringified segment already bears its leading separator
+            prefixed_segment = removable_segment
         path_now = self.original
 
         bracketed_segment = "[&{}]".format(popped_segment[1])
